@@ -9,6 +9,7 @@ exceeds full scale, failure ⇔ flag ∧ fail_on_overload, and that the written 
 is within one quantisation step of the exact sample (clipped outside [-1, 1]).
 -/
 import Earverif.Model.FileRender
+import Earverif.Proofs.C04Layout
 import Mathlib.Tactic.Linarith
 import Mathlib.Tactic.Ring
 import Mathlib.Tactic.Tauto
@@ -261,6 +262,65 @@ theorem quantise_clips (M : Int) (x : Rat) :
     · rw [show -(((-M : Int)) : Rat) = ((M : Int) : Rat) by push_cast; ring, Rat.floor_intCast]
     · exact Rat.floor_intCast (-M)
 
+theorem outBlock_frame_len (chans : List String) (speakers : Option (List Speaker)) (gain : Rat)
+    (b : List (List Rat)) (hb : ∀ fr ∈ b, fr.length = chans.length) :
+    ∀ fr ∈ outBlock gain (speakers.map (fun sp => upmix sp chans)) b, fr.length = nChannels chans speakers := by
+  intro fr hfr
+  simp only [outBlock, List.mem_map] at hfr
+  obtain ⟨fr0, hfr0, rfl⟩ := hfr
+  cases speakers with
+  | none => simp [nChannels, hb fr0 hfr0]
+  | some sp => simp [nChannels, applyUpmix, upmix_length]
+
+theorem outBlock_flatten (gain : Rat) (U : Option (List (List Rat))) (rendered : List (List (List Rat))) :
+    (rendered.map (outBlock gain U)).flatten = outBlock gain U rendered.flatten := by
+  induction rendered with
+  | nil => simp [outBlock]
+  | cons b bs ih =>
+    simp only [List.map_cons, List.flatten_cons, ih]
+    simp [outBlock]
+
+/-- **The result does not depend on how the renderer's output is cut into blocks**: the written frames, the
+channel count and the overload outcome of `run` on any sequence of blocks (one per `render` call plus the tail,
+including empty ones) are those of `run` on their concatenation as a single block. -/
+theorem run_blocking_invariant (chans : List String) (speakers : Option (List Speaker)) (gain : Rat) (f : Bool)
+    (M : Int) (rendered : List (List (List Rat)))
+    (hlen : ∀ b ∈ rendered, ∀ fr ∈ b, fr.length = chans.length) :
+    (run chans speakers gain f M rendered).frames = (run chans speakers gain f M [rendered.flatten]).frames ∧
+    (run chans speakers gain f M rendered).nChannels = (run chans speakers gain f M [rendered.flatten]).nChannels ∧
+    (run chans speakers gain f M rendered).failed = (run chans speakers gain f M [rendered.flatten]).failed := by
+  refine ⟨?_, rfl, ?_⟩
+  · simp only [run, List.map_cons, List.map_nil, List.flatten_cons, List.flatten_nil, List.append_nil]
+    rw [outBlock_flatten]
+  · simp only [run]
+    congr 1
+    rw [Bool.eq_iff_iff]
+    have h1 : ∀ b ∈ rendered.map (outBlock gain (speakers.map fun sp => upmix sp chans)), ∀ fr ∈ b,
+        fr.length = nChannels chans speakers := by
+      intro b hb fr hfr
+      rw [List.mem_map] at hb
+      obtain ⟨b0, hb0, rfl⟩ := hb
+      exact outBlock_frame_len chans speakers gain b0 (hlen b0 hb0) fr hfr
+    have h2 : ∀ b ∈ [rendered.flatten].map (outBlock gain (speakers.map fun sp => upmix sp chans)), ∀ fr ∈ b,
+        fr.length = nChannels chans speakers := by
+      intro b hb fr hfr
+      simp only [List.map_cons, List.map_nil, List.mem_singleton] at hb
+      subst hb
+      refine outBlock_frame_len chans speakers gain _ ?_ fr hfr
+      intro fr' hfr'
+      rw [List.mem_flatten] at hfr'
+      obtain ⟨b0, hb0, hfr0⟩ := hfr'
+      exact hlen b0 hb0 fr' hfr0
+    rw [overload_iff _ _ h1, overload_iff _ _ h2]
+    simp only [List.map_cons, List.map_nil, List.mem_singleton, exists_eq_left]
+    rw [← outBlock_flatten]
+    simp only [List.mem_flatten]
+    constructor
+    · rintro ⟨b, hb, fr, hfr, x⟩
+      exact ⟨fr, ⟨b, hb, hfr⟩, x⟩
+    · rintro ⟨fr, ⟨b, hb, hfr⟩, x⟩
+      exact ⟨b, hb, fr, hfr, x⟩
+
 /-! Non-vacuity: a 0+2+0 layout routed through a speakers file that swaps the two
 channels onto outputs 2 and 0 with gains 1/2 and 1; one loud sample overloads. -/
 def exSpeakers : List Speaker := [⟨2, ["M+030"], 1/2⟩, ⟨0, ["M-030"], 1⟩]
@@ -271,3 +331,691 @@ example : (run ["M+030", "M-030"] (some exSpeakers) 1 true 32767 [[[1, 3/2]], []
   decide +kernel
 
 end Earverif.FileRender
+
+/-! ## The speakers file, the selection glue (`Model/FileRenderLayout.lean`)
+
+Everything below is about the transliteration of `load_real_layout`, `Layout.with_speakers` /
+`with_real_layout`, `check_positions`, `check_upmix_matrix`, `load_output_layout`, `lookup_adm_element`,
+`get_rendering_items`, on a parsed YAML value. Statements are for ALL values of the model's types; where the
+code raises, the model returns `.error` and the theorems say which inputs those are. -/
+namespace Earverif.FileRenderLayout
+open Earverif.FileRender
+
+/-- **Output channel count of a speakers file.** When `with_speakers` succeeds, every `channel` entry of the
+file is an integer, there is at least one, the matrix has exactly `1 + max channel` rows (channels named by
+no layout channel count too), every listed channel number is below that count, every row has one entry per
+layout channel and the layout keeps its channels. -/
+theorem speakers_file_channels {chans : List Channel} {sp : List RSpeaker} {chans' : List Channel}
+    {U : List (List Rat)} (h : withSpeakers chans sp = .ok (chans', U)) :
+    ∃ cs : List Int, cs.length = sp.length ∧ (∀ i (h1 : i < sp.length) (h2 : i < cs.length), sp[i].channel = .int cs[i]) ∧
+      cs ≠ [] ∧ maxInt cs ∈ cs ∧ (U.length : Int) = maxInt cs + 1 ∧ (∀ c ∈ cs, c < (U.length : Int)) ∧
+      (∀ row ∈ U, row.length = chans.length) ∧ chans'.length = chans.length ∧
+      chans'.map (·.name) = chans.map (·.name) := by
+  obtain ⟨cs, cols, hcs, hne, hout, hcols, rfl, rfl⟩ := withSpeakers_ok h
+  have hm := maxInt_mem cs hne
+  have hlen := mapE_ok_length _ _ _ hcols
+  refine ⟨cs, mapE_ok_length _ _ _ hcs, ?_, hne, hm.1, ?_, ?_, ?_, ?_, ?_⟩
+  · intro i h1 h2
+    exact chanInt_ok (mapE_ok_get _ _ _ hcs i h1 h2)
+  · simp only [List.length_map, List.length_range]; omega
+  · intro c hc
+    have := hm.2 c hc
+    simp only [List.length_map, List.length_range]; omega
+  · intro row hrow
+    simp only [List.mem_map, List.mem_range] at hrow
+    obtain ⟨o, _, rfl⟩ := hrow
+    simp [hlen]
+  · simp [hlen]
+  · apply List.ext_getElem
+    · simp [hlen]
+    · intro i h1 h2
+      simp only [List.getElem_map]
+      have hi : i < chans.length := by simpa using h2
+      have hi' : i < cols.length := by rw [hlen]; exact hi
+      have hc := mapE_ok_get _ _ _ hcols i hi hi'
+      rcases column_ok hc with ⟨_, e⟩ | ⟨s, c, row, g, _, _, _, _, e⟩
+      · rw [e]
+      · rw [e]; cases s.pos <;> rfl
+
+/-- **Routing of a speakers file.** When `with_speakers` succeeds, for each layout channel `i`:
+if no entry of the file lists its name the whole column is zero (the channel is silent, not rejected) and
+the channel keeps its position; otherwise let `s` be the FIRST entry listing the name: its `channel` is an
+integer `c` that resolves (Python indexing: `c`, or `c + rows` for `-rows ≤ c < 0`) to a row inside the matrix,
+its gain is a number `g`, the column holds `g` in that row and zero everywhere else, and the channel takes the
+entry's position if it has one. -/
+theorem speakers_file_routing {chans : List Channel} {sp : List RSpeaker} {chans' : List Channel}
+    {U : List (List Rat)} (h : withSpeakers chans sp = .ok (chans', U)) (i : Nat) (hi : i < chans.length) :
+    (findRSpeaker sp chans[i].name = none ∧ (∀ o, entry U o i = 0) ∧ chans'[i]? = some chans[i]) ∨
+    ∃ s c row g, findRSpeaker sp chans[i].name = some s ∧ s.channel = .int c ∧
+      pyIndex U.length c = .ok row ∧ row < U.length ∧ gainValue s.gain = .ok g ∧
+      (∀ o, entry U o i = if o = row then g else 0) ∧
+      chans'[i]? = some (match s.pos with
+        | some p => { chans[i] with pos := p }
+        | none => chans[i]) := by
+  obtain ⟨cs, cols, hcs, hne, hout, hcols, rfl, rfl⟩ := withSpeakers_ok h
+  have hlen := mapE_ok_length _ _ _ hcols
+  have hi' : i < cols.length := by rw [hlen]; exact hi
+  have hc := mapE_ok_get _ _ _ hcols i hi hi'
+  have hU : ((List.range (maxInt cs + 1).toNat).map fun o => cols.map fun c => entryOf o c.1).length
+      = (maxInt cs + 1).toNat := by simp
+  have hentry : ∀ o, entry ((List.range (maxInt cs + 1).toNat).map fun o => cols.map fun c => entryOf o c.1) o i
+      = if o < (maxInt cs + 1).toNat then entryOf o cols[i].1 else 0 := by
+    intro o
+    unfold entry
+    by_cases ho : o < (maxInt cs + 1).toNat
+    · simp [List.getD, ho, hi']
+    · simp [List.getD, ho]
+  rcases column_ok hc with ⟨hf, e⟩ | ⟨s, c, row, g, hf, hch, hrow, hg, e⟩
+  · left
+    refine ⟨hf, ?_, ?_⟩
+    · intro o; rw [hentry, e]; simp [entryOf]
+    · simp [hi', e]
+  · right
+    have hlt := pyIndex_lt hrow
+    refine ⟨s, c, row, g, hf, hch, by rw [hU]; exact hrow, by rw [hU]; exact hlt, hg, ?_, ?_⟩
+    · intro o
+      rw [hentry, e]
+      simp only [entryOf]
+      by_cases ho : o = row
+      · subst ho; simp [hlt]
+      · have : ¬ row = o := fun h => ho h.symm
+        simp [ho, this]
+    · have hget : (List.map (fun x => x.2) cols)[i]? = some cols[i].2 := by simp [hi']
+      rw [hget, e]
+      cases s.pos <;> rfl
+
+/-- **Columns of a speakers-file matrix.** A column never has more than one non-zero entry (so the message
+"mapped to multiple outputs" cannot occur for a matrix built by `with_speakers`); it has none exactly when no
+entry of the file lists the channel's name or the first entry that does has gain 0. -/
+theorem speakers_file_column_nnz {chans : List Channel} {sp : List RSpeaker} {chans' : List Channel}
+    {U : List (List Rat)} (h : withSpeakers chans sp = .ok (chans', U)) (i : Nat) (hi : i < chans.length) :
+    nnz (colOf U i) ≤ 1 ∧
+    (nnz (colOf U i) = 1 ↔ ∃ s g, findRSpeaker sp chans[i].name = some s ∧ gainValue s.gain = .ok g ∧ g ≠ 0) := by
+  rw [colOf_eq_entries]
+  unfold nnz
+  rw [List.countP_map]
+  rcases speakers_file_routing h i hi with ⟨hf, hz, _⟩ | ⟨s, c, row, g, hf, _, _, hlt, hg, hz, _⟩
+  · have e : ((fun x : Rat => x != 0) ∘ fun o => entry U o i) = fun _ => false := by
+      funext o; simp [hz o]
+    rw [e]
+    simp [hf]
+  · have e : ((fun x : Rat => x != 0) ∘ fun o => entry U o i) = fun o => (if o = row then g else 0) != 0 := by
+      funext o; simp [hz o]
+    rw [e, countP_single]
+    by_cases hg0 : g = 0
+    · simp [hg0, hf, hg]
+    · simp [hg0, hf, hg, hlt]
+
+/-- **What `check_upmix_matrix` accepts.** It emits no message exactly for the matrices in which every
+column (layout channel) has exactly one non-zero entry and every row (output channel) at most one. -/
+theorem upmix_check_iff (names : List String) (U : List (List Rat)) :
+    checkUpmix names U = [] ↔
+      (∀ i, i < names.length → nnz (colOf U i) = 1) ∧ (∀ row ∈ U, nnz row ≤ 1) := by
+  unfold checkUpmix
+  rw [List.append_eq_nil_iff, List.flatMap_eq_nil_iff, List.flatMap_eq_nil_iff]
+  constructor
+  · rintro ⟨h1, h2⟩
+    constructor
+    · intro i hi
+      have := h1 (names[i], i) (by rw [List.mem_zipIdx_iff_getElem?]; simp [hi])
+      simp only [nonzeroIdx_length, List.append_eq_nil_iff] at this
+      obtain ⟨a, b⟩ := this
+      by_cases h0 : nnz (colOf U i) = 0
+      · simp [h0] at a
+      · by_cases h2 : nnz (colOf U i) > 1
+        · simp [h2] at b
+        · omega
+    · intro row hrow
+      obtain ⟨o, ho, rfl⟩ := List.getElem_of_mem hrow
+      have := h2 (U[o], o) (by rw [List.mem_zipIdx_iff_getElem?]; simp [ho])
+      simp only [nonzeroIdx_length] at this
+      by_cases h2 : nnz U[o] > 1
+      · simp [h2] at this
+      · omega
+  · rintro ⟨h1, h2⟩
+    constructor
+    · rintro ⟨name, i⟩ hm
+      rw [List.mem_zipIdx_iff_getElem?] at hm
+      have hi : i < names.length := by
+        by_contra hc
+        simp [List.getElem?_eq_none (Nat.le_of_not_lt hc)] at hm
+      simp [nonzeroIdx_length, h1 i hi]
+    · rintro ⟨row, o⟩ hm
+      rw [List.mem_zipIdx_iff_getElem?] at hm
+      have hrow : row ∈ U := List.mem_of_getElem? hm
+      have := h2 row hrow
+      simp only [nonzeroIdx_length]
+      rw [if_neg (by omega)]
+
+/-- **When the speakers file passes `check_upmix_matrix` silently**: exactly when every layout channel is listed
+by an entry whose (first such) gain is non-zero and no output channel receives two layout channels. -/
+theorem speakers_file_check_clean_iff {chans : List Channel} {sp : List RSpeaker} {chans' : List Channel}
+    {U : List (List Rat)} (h : withSpeakers chans sp = .ok (chans', U)) :
+    checkUpmix (chans.map (·.name)) U = [] ↔
+      (∀ i (hi : i < chans.length), ∃ s g, findRSpeaker sp chans[i].name = some s ∧ gainValue s.gain = .ok g ∧ g ≠ 0) ∧
+      (∀ row ∈ U, nnz row ≤ 1) := by
+  rw [upmix_check_iff]
+  simp only [List.length_map]
+  constructor
+  · rintro ⟨h1, h2⟩
+    exact ⟨fun i hi => ((speakers_file_column_nnz h i hi).2).mp (h1 i hi), h2⟩
+  · rintro ⟨h1, h2⟩
+    exact ⟨fun i hi => ((speakers_file_column_nnz h i hi).2).mpr (h1 i hi), h2⟩
+
+/-- **Speaker entries.** An accepted entry is a mapping with `names` and `channel` (both required: a missing
+one is an error, there is no default channel index); `names` may be a list or a single value; `gain_linear`
+defaults to 1; `position`, when present, must parse; any other key is ignored. -/
+theorem parse_speaker_spec {y : Y} {s : RSpeaker} (h : parseSpeaker y = .ok s) :
+    ∃ kvs nm, y = .dict kvs ∧ lookup "names" kvs = some nm ∧ s.names = namesOf nm ∧
+      lookup "channel" kvs = some s.channel ∧
+      s.gain = (lookup "gain_linear" kvs).getD (.num 1) ∧
+      (match lookup "position" kvs with
+        | none => s.pos = none
+        | some p => ∃ pp, parsePolar p = .ok pp ∧ s.pos = some pp) := by
+  unfold parseSpeaker at h
+  split at h
+  · rename_i kvs
+    split at h
+    · cases h
+    · rename_i nm hnm
+      split at h
+      · cases h
+      · rename_i ch hch
+        split at h
+        · rename_i hp
+          cases h
+          refine ⟨kvs, nm, rfl, hnm, rfl, hch, rfl, ?_⟩
+          rw [hp]
+        · rename_i p hp
+          split at h
+          · cases h
+          · rename_i pp hpp
+            cases h
+            refine ⟨kvs, nm, rfl, hnm, rfl, hch, rfl, ?_⟩
+            rw [hp]
+            exact ⟨pp, hpp, rfl⟩
+  · cases h
+
+/-- **Real positions.** An accepted `position` is a mapping with exactly the keys `az`, `el`, `r` whose values
+lie in [-180, 180], [-90, 90] and [0, ∞): anything else (other/missing keys, out of range) is an error. -/
+theorem parse_polar_spec {y : Y} {p : PolarPos} (h : parsePolar y = .ok p) :
+    ∃ kvs a e r, y = .dict kvs ∧ keysAre kvs ["az", "el", "r"] = true ∧
+      lookup "az" kvs = some a ∧ lookup "el" kvs = some e ∧ lookup "r" kvs = some r ∧
+      toFloat a = .ok p.az ∧ toFloat e = .ok p.el ∧ toFloat r = .ok p.r ∧
+      -180 ≤ p.az ∧ p.az ≤ 180 ∧ -90 ≤ p.el ∧ p.el ≤ 90 ∧ 0 ≤ p.r := by
+  unfold parsePolar at h
+  split at h
+  · rename_i kvs
+    split at h
+    · rename_i hk
+      split at h
+      · rename_i a e r ha he hr
+        split at h
+        · cases h
+        · rename_i az haz
+          split at h
+          · cases h
+          · rename_i el hel
+            split at h
+            · cases h
+            · rename_i d hd
+              split at h
+              · rename_i hr'
+                cases h
+                exact ⟨kvs, a, e, r, rfl, hk, ha, he, hr, haz, hel, hd, hr'.1, hr'.2.1, hr'.2.2.1, hr'.2.2.2.1, hr'.2.2.2.2⟩
+              · cases h
+      · cases h
+    · cases h
+  · cases h
+
+/-- **`screen:` absent, null or given** (dict form of the file). Absent: the default screen. `null`: no
+screen (screen-related processing off). Given: whatever `parse_yaml_screen` makes of it, which is always a
+screen. The list form of the file has no place for a screen and gets the default. -/
+theorem screen_null_vs_absent (dflt : Screen) (kvs : List (String × Y)) (rl : RealLayout)
+    (h : loadRealLayout dflt (.dict kvs) = .ok rl) :
+    (lookup "screen" kvs = none → rl.screen = some dflt) ∧
+    (lookup "screen" kvs = some .null → rl.screen = none) ∧
+    (∀ v, lookup "screen" kvs = some v → parseScreen v = .ok rl.screen) ∧
+    (∀ v, lookup "screen" kvs = some v → v ≠ .null → ∃ s, rl.screen = some s) := by
+  unfold loadRealLayout at h
+  simp only at h
+  split at h
+  · cases h
+  · rename_i sp _
+    have key : ∀ v, lookup "screen" kvs = some v → parseScreen v = .ok rl.screen := by
+      intro v hv
+      rw [hv] at h
+      simp only at h
+      split at h
+      · cases h
+      · rename_i sc hsc; cases h; exact hsc
+    refine ⟨?_, ?_, key, ?_⟩
+    · intro hn; rw [hn] at h; cases h; rfl
+    · intro hn
+      have := key _ hn
+      simp [parseScreen] at this
+      exact this.symm
+    · intro v hv hnn
+      exact parseScreen_some (key v hv) hnn
+
+theorem screen_list_form (dflt : Screen) (xs : List Y) (rl : RealLayout)
+    (h : loadRealLayout dflt (.list xs) = .ok rl) : rl.screen = some dflt := by
+  unfold loadRealLayout at h
+  simp only at h
+  split at h
+  · cases h
+  · have : lookup "screen" [("speakers", Y.list xs)] = none := by simp [lookup]
+    rw [this] at h
+    cases h; rfl
+
+/-- `with_real_layout` always installs the real layout's screen: the screen of the BS.2051 layout object is
+never kept (so `null` really removes it). -/
+theorem with_real_layout_screen {chans : List Channel} {rl : RealLayout} {cs : List Channel}
+    {sc : Option Screen} {U : List (List Rat)} (h : withRealLayout chans rl = .ok (cs, sc, U)) :
+    sc = rl.screen := by
+  unfold withRealLayout at h
+  split at h
+  · cases h; rfl
+  · split at h
+    · cases h
+    · cases h; rfl
+
+/-- The three screen forms seen through `load_output_layout`, and the no-file case. -/
+theorem load_output_layout_screen (dflt : Screen) (layScreen : Option Screen) (chans : List Channel) :
+    (∀ o, loadOutputLayout dflt layScreen chans none = .ok o →
+        o.screen = layScreen ∧ o.upmix = none ∧ o.nChannels = chans.length ∧ o.chans = chans ∧ o.warnings = []) ∧
+    (∀ kvs o, loadOutputLayout dflt layScreen chans (some (.dict kvs)) = .ok o →
+        (lookup "screen" kvs = none → o.screen = some dflt) ∧
+        (lookup "screen" kvs = some .null → o.screen = none)) := by
+  constructor
+  · intro o h
+    simp only [loadOutputLayout] at h
+    cases h
+    exact ⟨rfl, rfl, rfl, rfl, rfl⟩
+  · intro kvs o h
+    simp only [loadOutputLayout] at h
+    split at h
+    · cases h
+    · rename_i rl hrl
+      split at h
+      · cases h
+      · rename_i cs sc U hw
+        cases h
+        have hs := with_real_layout_screen hw
+        have := screen_null_vs_absent dflt kvs rl hrl
+        simp only [hs]
+        exact ⟨this.1, this.2.1⟩
+
+/-- **`inside_angle_range` on a range given as the data files give it** (`start ≤ end ≤ start + 360`, true of
+every BS.2051 channel): `x` is inside exactly when some whole-turn representative of `x` lies in `[start, end]`
+(so `(-180, 180)` is the whole circle, `(180, 180)` the single direction ±180). -/
+theorem inside_angle_range_iff (x s e : Rat) (h1 : s ≤ e) (h2 : e ≤ s + 360) :
+    insideAngleRange x s e = true ↔ ∃ k : Int, s ≤ x + 360 * (k : Rat) ∧ x + 360 * (k : Rat) ≤ e := by
+  obtain ⟨x1, x2, k, hk⟩ := normX_spec s x
+  obtain ⟨_, _, _, he⟩ := normEnd_spec s e
+  unfold insideAngleRange
+  rw [he h1 h2, decide_eq_true_iff]
+  constructor
+  · intro h
+    exact ⟨k, by rw [← hk]; exact x1, by rw [← hk]; exact h⟩
+  · rintro ⟨k', a, b⟩
+    by_cases hlt : x + 360 * (k' : Rat) < s + 360
+    · have e1 : (((k - k' : Int)) : Rat) < 1 := by push_cast; linarith
+      have e2 : (-1 : Rat) < (((k - k' : Int)) : Rat) := by push_cast; linarith
+      have e1' : k - k' < 1 := by exact_mod_cast e1
+      have e2' : -1 < k - k' := by exact_mod_cast e2
+      have : k = k' := by omega
+      rw [hk, this]; exact b
+    · linarith
+
+/-- **`check_position`**: a channel (with ranges as in the data files) is reported exactly when no whole-turn
+representative of its real azimuth lies in its azimuth range, resp. its real elevation is outside its elevation range. -/
+theorem check_position_iff (c : Channel) (h1 : c.azLo ≤ c.azHi) (h2 : c.azHi ≤ c.azLo + 360) :
+    (Warn.az c.name ∈ checkPosition c ↔ ¬ ∃ k : Int, c.azLo ≤ c.pos.az + 360 * (k : Rat) ∧ c.pos.az + 360 * (k : Rat) ≤ c.azHi) ∧
+    (Warn.el c.name ∈ checkPosition c ↔ ¬ (c.elLo ≤ c.pos.el ∧ c.pos.el ≤ c.elHi)) ∧
+    (∀ w ∈ checkPosition c, w = Warn.az c.name ∨ w = Warn.el c.name) := by
+  have hi := inside_angle_range_iff c.pos.az c.azLo c.azHi h1 h2
+  unfold checkPosition
+  refine ⟨?_, ?_, ?_⟩
+  · rw [← hi]
+    by_cases ha : insideAngleRange c.pos.az c.azLo c.azHi = true
+    · by_cases hb : c.elLo ≤ c.pos.el ∧ c.pos.el ≤ c.elHi <;> simp [ha, hb]
+    · by_cases hb : c.elLo ≤ c.pos.el ∧ c.pos.el ≤ c.elHi <;> simp [ha, hb]
+  · by_cases ha : insideAngleRange c.pos.az c.azLo c.azHi = true
+    · by_cases hb : c.elLo ≤ c.pos.el ∧ c.pos.el ≤ c.elHi <;> simp [ha, hb]
+    · by_cases hb : c.elLo ≤ c.pos.el ∧ c.pos.el ≤ c.elHi <;> simp [ha, hb]
+  · intro w hw
+    rw [List.mem_append] at hw
+    rcases hw with hw | hw
+    · by_cases ha : insideAngleRange c.pos.az c.azLo c.azHi = true
+      · simp [ha] at hw
+      · simp only [ha] at hw
+        exact Or.inl (by simpa using hw)
+    · by_cases hb : c.elLo ≤ c.pos.el ∧ c.pos.el ≤ c.elHi
+      · simp [hb] at hw
+      · simp only [hb] at hw
+        exact Or.inr (by simpa using hw)
+
+/-- **The parsed speakers file routes exactly as the `FileRender` glue model says.** If every entry has a
+non-negative integer channel and a numeric gain (so that `toSpeakers` is defined) and `with_speakers` succeeds,
+its matrix is `FileRender.upmix` of those speakers over the layout's channel names, and its row count is
+`FileRender.nChannels` — the quantities `FileRender.run` and its theorems are stated about. -/
+theorem with_speakers_eq_upmix {chans : List Channel} {sp : List RSpeaker} {chans' : List Channel}
+    {U : List (List Rat)} (h : withSpeakers chans sp = .ok (chans', U)) {sp' : List Speaker}
+    (hs : toSpeakers sp = some sp') :
+    U = upmix sp' (chans.map (·.name)) ∧ U.length = nChannels (chans.map (·.name)) (some sp') := by
+  obtain ⟨cs, cols, hcs, hne, hout, hcols, rfl, rfl⟩ := withSpeakers_ok h
+  have hlen := mapE_ok_length _ _ _ hcols
+  have hcs' := chans_bridge sp sp' cs hs hcs
+  have hne' : sp'.map (·.channel) ≠ [] := by
+    intro e
+    apply hne
+    rw [hcs']
+    simp only [List.map_eq_nil_iff] at e ⊢
+    exact e
+  have hout' : (maxInt cs + 1).toNat = outChannels sp' := by
+    unfold outChannels
+    have := maxInt_cast (sp'.map (·.channel)) hne'
+    rw [List.map_map] at this
+    rw [hcs']
+    have e : (fun s : Speaker => Int.ofNat s.channel) = Int.ofNat ∘ fun x => x.channel := by
+      funext s; rfl
+    rw [e, this]
+    simp
+  refine ⟨?_, ?_⟩
+  · unfold upmix
+    rw [hout']
+    apply List.map_congr_left
+    intro o ho
+    apply List.ext_getElem
+    · simp [hlen]
+    · intro i h1 h2
+      have hi : i < chans.length := by simpa using h2
+      have hi' : i < cols.length := by rw [hlen]; exact hi
+      have hc := mapE_ok_get _ _ _ hcols i hi hi'
+      simp only [List.getElem_map]
+      rcases column_ok hc with ⟨hf, e⟩ | ⟨s, c, row, g, hf, hch, hrow, hg, e⟩
+      · rcases find_bridge chans[i].name sp sp' hs with ⟨_, b⟩ | ⟨t, t', a, _, _⟩
+        · rw [e]; simp [entryOf, upmixEntry, b]
+        · rw [hf] at a; cases a
+      · rcases find_bridge chans[i].name sp sp' hs with ⟨a, _⟩ | ⟨t, t', a, b, ht⟩
+        · rw [hf] at a; cases a
+        · rw [hf] at a; cases a
+          obtain ⟨c', g', hc', h0, hg', hch', hgain, _⟩ := toSpeaker_spec ht
+          rw [hch] at hc'; cases hc'
+          rw [hg] at hg'; cases hg'
+          have hrow' : row = c.toNat := by
+            unfold pyIndex at hrow
+            split at hrow
+            · cases hrow; rfl
+            · split at hrow
+              · omega
+              · cases hrow
+          rw [e]
+          simp only [entryOf, upmixEntry, b, hch', hgain, hrow']
+  · simp [nChannels, hout']
+
+/-- `np.eye(n)` as upmix leaves every frame as it is (a speakers file without a `speakers` list changes the
+screen only). -/
+theorem eye_identity (n : Nat) (frame : List Rat) (h : frame.length = n) : applyUpmix (eye n) frame = frame := by
+  unfold applyUpmix eye
+  rw [List.map_map]
+  apply List.ext_getElem
+  · simp [h]
+  · intro o h1 h2
+    have ho : o < n := by simpa using h1
+    simp only [List.getElem_map, List.getElem_range, Function.comp]
+    rw [eye_row n o ho, dot_single 1 frame o n h ho]
+    have : o < frame.length := by omega
+    simp [List.getD, this]
+
+/-- **`load_output_layout` with a speakers file, as `FileRender.run` sees it.** If the call succeeds, the file
+was accepted by `load_real_layout`; without a `speakers` list the matrix is the identity on the layout's channels
+and the channel count is the layout's; with a list whose entries have non-negative integer channels and numeric
+gains, the matrix and channel count are `FileRender.upmix` / `FileRender.nChannels` of those speakers. The
+positions and the matrix have been through `check_positions` / `check_upmix_matrix` (messages only, never an error). -/
+theorem load_output_layout_spec (dflt : Screen) (layScreen : Option Screen) (chans : List Channel) (y : Y)
+    (o : OutLayout) (h : loadOutputLayout dflt layScreen chans (some y) = .ok o) :
+    ∃ rl U, loadRealLayout dflt y = .ok rl ∧ o.upmix = some U ∧ o.nChannels = U.length ∧ o.screen = rl.screen ∧
+      o.warnings = checkPositions o.chans ++ checkUpmix (o.chans.map (·.name)) U ∧
+      (rl.speakers = none → U = eye chans.length ∧ o.chans = chans ∧ o.nChannels = chans.length) ∧
+      (∀ sp sp', rl.speakers = some sp → toSpeakers sp = some sp' →
+        U = upmix sp' (chans.map (·.name)) ∧ o.nChannels = nChannels (chans.map (·.name)) (some sp') ∧
+        o.chans.map (·.name) = chans.map (·.name)) := by
+  simp only [loadOutputLayout] at h
+  split at h
+  · cases h
+  · rename_i rl hrl
+    split at h
+    · cases h
+    · rename_i cs sc U hw
+      cases h
+      refine ⟨rl, U, hrl, rfl, rfl, ?_, rfl, ?_, ?_⟩
+      · unfold withRealLayout at hw
+        split at hw
+        · cases hw; rfl
+        · split at hw
+          · cases hw
+          · cases hw; rfl
+      · intro hn
+        unfold withRealLayout at hw
+        rw [hn] at hw
+        cases hw
+        exact ⟨rfl, rfl, by simp [eye]⟩
+      · intro sp sp' hsp hts
+        unfold withRealLayout at hw
+        rw [hsp] at hw
+        simp only at hw
+        split at hw
+        · cases hw
+        · rename_i cs' U' hws
+          cases hw
+          have := with_speakers_eq_upmix hws hts
+          exact ⟨this.1, this.2, (speakers_file_channels hws).choose_spec.2.2.2.2.2.2.2.2⟩
+
+/-- **Programme / object lookup is total and never defaults.** With an id given, `lookup_adm_element`
+either returns the FIRST element of the document whose id matches (ignoring case) provided it has the requested
+type, or raises: `KeyError` exactly when no element has that id, `ValueError` exactly when the first match is of
+another type. Only a missing id (`None`) gives `None` (the renderer's default programme choice). -/
+theorem programme_lookup_total (adm : List Elem) (id : String) (kind : Kind) :
+    (lookupAdmElement adm none kind = .ok none) ∧
+    (lookupAdmElement adm (some id) kind ≠ .ok none) ∧
+    (∀ e, lookupAdmElement adm (some id) kind = .ok (some e) ↔
+        (adm.find? (idMatches id) = some e ∧ e.kind = kind)) ∧
+    (lookupAdmElement adm (some id) kind = .error (.keyError id) ↔ ∀ e ∈ adm, idMatches id e = false) ∧
+    (lookupAdmElement adm (some id) kind = .error (.valueError id) ↔
+        ∃ e, adm.find? (idMatches id) = some e ∧ e.kind ≠ kind) := by
+  have hl : lookupElement adm id = adm.find? (idMatches id) := rfl
+  refine ⟨rfl, ?_, ?_, ?_, ?_⟩
+  · simp only [lookupAdmElement, hl]
+    cases adm.find? (idMatches id) with
+    | none => simp
+    | some e => by_cases hk : e.kind = kind <;> simp [hk]
+  · intro e
+    simp only [lookupAdmElement, hl]
+    cases adm.find? (idMatches id) with
+    | none => simp
+    | some e' =>
+      by_cases hk : e'.kind = kind
+      · simp only [hk, if_true]
+        constructor
+        · intro h; cases h; exact ⟨rfl, hk⟩
+        · rintro ⟨h, _⟩; cases h; rfl
+      · simp only [hk, if_false]
+        constructor
+        · intro h; cases h
+        · rintro ⟨h, h2⟩; cases h; exact absurd h2 hk
+  · simp only [lookupAdmElement, hl]
+    cases hf : adm.find? (idMatches id) with
+    | none =>
+      simp only [true_iff]
+      intro e he
+      have := List.find?_eq_none.mp hf e he
+      simpa using this
+    | some e' =>
+      have hm := List.mem_of_find?_eq_some hf
+      have hp := List.find?_some hf
+      by_cases hk : e'.kind = kind
+      · simp only [hk, if_true]
+        constructor
+        · intro h; cases h
+        · intro h; rw [h e' hm] at hp; cases hp
+      · simp only [hk, if_false]
+        constructor
+        · intro h; cases h
+        · intro h; rw [h e' hm] at hp; cases hp
+  · simp only [lookupAdmElement, hl]
+    cases adm.find? (idMatches id) with
+    | none => simp
+    | some e' =>
+      by_cases hk : e'.kind = kind
+      · simp [hk]
+      · simp [hk]
+
+/-- `get_complementary_objects`: all ids resolve (in order) or the call raises. -/
+theorem lookupAll_ok (adm : List Elem) (kind : Kind) : ∀ (ids : List String) (es : List Elem),
+    lookupAll adm kind ids = .ok es →
+      es.length = ids.length ∧
+      ∀ j (h1 : j < ids.length) (h2 : j < es.length), lookupAdmElement adm (some ids[j]) kind = .ok (some es[j]) := by
+  intro ids
+  induction ids with
+  | nil => intro es h; simp [lookupAll] at h; subst h; simp
+  | cons i is ih =>
+    intro es h
+    simp only [lookupAll] at h
+    split at h
+    · cases h
+    · cases h
+    · rename_i e he
+      split at h
+      · cases h
+      · rename_i es' hes
+        cases h
+        obtain ⟨l, g⟩ := ih es' hes
+        refine ⟨by simp [l], ?_⟩
+        intro j h1 h2
+        cases j with
+        | zero => simpa using he
+        | succ j => simpa using g j (by simpa using h1) (by simpa using h2)
+
+/-- **`get_rendering_items` = lookups, then select, preprocess, convert — in that order, nothing else.**
+The call succeeds with `r` exactly when the programme id and every complementary-object id resolve to elements of
+the right type and the three stages succeed on exactly those elements; a failed lookup is the error of the whole
+call whatever the later stages would do (no silent fallback to another programme). -/
+theorem get_rendering_items_spec {I : Type} (select : Option Elem → List Elem → Except LErr I)
+    (preprocess toCart toPolar : I → Except LErr I) (adm : List Elem) (pid : Option String)
+    (compIds : List String) (mode : Option String) (r : I) :
+    getRenderingItems select preprocess toCart toPolar adm pid compIds mode = .ok r ↔
+      ∃ prog comps i1 i2, lookupAdmElement adm pid .programme = .ok prog ∧
+        lookupAll adm .object compIds = .ok comps ∧ select prog comps = .ok i1 ∧ preprocess i1 = .ok i2 ∧
+        applyConversion toCart toPolar mode i2 = .ok r := by
+  unfold getRenderingItems
+  constructor
+  · intro h
+    split at h
+    · cases h
+    · rename_i prog hp
+      split at h
+      · cases h
+      · rename_i comps hc
+        split at h
+        · cases h
+        · rename_i i1 h1
+          split at h
+          · cases h
+          · rename_i i2 h2
+            exact ⟨prog, comps, i1, i2, hp, hc, h1, h2, h⟩
+  · rintro ⟨prog, comps, i1, i2, hp, hc, h1, h2, h⟩
+    simp only [hp, hc, h1, h2, h]
+
+theorem get_rendering_items_lookup_error {I : Type} (select : Option Elem → List Elem → Except LErr I)
+    (preprocess toCart toPolar : I → Except LErr I) (adm : List Elem) (pid : Option String)
+    (compIds : List String) (mode : Option String) :
+    (∀ e, lookupAdmElement adm pid .programme = .error e →
+      getRenderingItems select preprocess toCart toPolar adm pid compIds mode = .error e) ∧
+    (∀ prog e, lookupAdmElement adm pid .programme = .ok prog → lookupAll adm .object compIds = .error e →
+      getRenderingItems select preprocess toCart toPolar adm pid compIds mode = .error e) := by
+  constructor
+  · intro e h; simp only [getRenderingItems, h]
+  · intro prog e h1 h2; simp only [getRenderingItems, h1, h2]
+
+/-- `apply_conversion`: no mode = identity; the two named modes call the respective conversion; anything else
+trips the `assert`. -/
+theorem apply_conversion_spec {I : Type} (toCart toPolar : I → Except LErr I) (items : I) :
+    applyConversion toCart toPolar none items = .ok items ∧
+    applyConversion toCart toPolar (some "to_cartesian") items = toCart items ∧
+    applyConversion toCart toPolar (some "to_polar") items = toPolar items ∧
+    ∀ m, m ≠ "to_cartesian" → m ≠ "to_polar" → applyConversion toCart toPolar (some m) items = .error .assertion := by
+  refine ⟨rfl, by simp [applyConversion], by simp [applyConversion], ?_⟩
+  intro m h1 h2
+  simp [applyConversion, h1, h2]
+
+/-! ### Non-vacuity: concrete speakers files and lookups satisfying the hypotheses above -/
+
+def exDflt : Screen := .polar (89 / 50) ⟨0, 0, 1⟩ 58
+def exChans : List Channel :=
+  [⟨"M+030", ⟨30, 0, 1⟩, 30, 30, 0, 0⟩, ⟨"M-030", ⟨-30, 0, 1⟩, -30, -30, 0, 0⟩]
+
+/-- `speakers: [{channel: 2, names: M+030, gain_linear: 0.5, position: {az: 31, el: 0, r: 2}},
+{channel: 0, names: [M-030, X], ignored: 1}]`, `screen: null`. -/
+def exFile : Y := .dict [
+  ("speakers", .list [
+    .dict [("channel", .int 2), ("names", .str "M+030"), ("gain_linear", .num (1 / 2)),
+           ("position", .dict [("az", .int 31), ("el", .num 0), ("r", .int 2)])],
+    .dict [("names", .list [.str "M-030", .str "X"]), ("channel", .int 0), ("ignored", .int 1)]]),
+  ("screen", .null)]
+
+/-- The whole front end on that file: 3 output channels, routing matrix, the moved loudspeaker, no screen, and
+the azimuth message for the loudspeaker placed outside its (single-direction) range. -/
+def exOut : Option OutLayout := (loadOutputLayout exDflt (some exDflt) exChans (some exFile)).toOption
+example : exOut.map (·.nChannels) = some 3 := by decide +kernel
+example : exOut.map (·.upmix) = some (some [[0, 1], [0, 0], [1 / 2, 0]]) := by decide +kernel
+example : exOut.map (fun o => o.chans.map (·.pos)) = some [⟨31, 0, 2⟩, ⟨-30, 0, 1⟩] := by decide +kernel
+example : exOut.map (·.screen) = some none := by decide +kernel
+example : exOut.map (·.warnings) = some [Warn.az "M+030"] := by decide +kernel
+
+/-- Hypotheses of `speakers_file_channels` / `_routing` / `with_speakers_eq_upmix` hold for its speakers. -/
+def exSp : List RSpeaker :=
+  [⟨.int 2, [.str "M+030"], some ⟨31, 0, 2⟩, .num (1 / 2)⟩, ⟨.int 0, [.str "M-030", .str "X"], none, .num 1⟩]
+example : (loadRealLayout exDflt exFile).toOption.map
+      (fun rl => rl.speakers.map (·.map fun s => (s.pos, (toSpeaker s).map (·.names)))) =
+    some (some (exSp.map fun s => (s.pos, (toSpeaker s).map (·.names)))) := by decide +kernel
+example : (withSpeakers exChans exSp).toOption.isSome = true ∧
+    (toSpeakers exSp).map (·.map fun s => (s.channel, s.names, s.gain)) =
+      some [(2, ["M+030"], 1 / 2), (0, ["M-030", "X"], 1)] := by decide +kernel
+
+/-- Absent `screen` key (list form of the file): the default screen. -/
+example : (loadRealLayout exDflt (.list [.dict [("channel", .int 0), ("names", .str "M+030")]])).toOption.map (·.screen)
+    = some (some exDflt) := by decide +kernel
+
+/-- Error branches: missing `channel`, position with an extra key, azimuth out of range, unknown screen type,
+a top-level scalar; a negative channel that does not wrap; an empty speakers list. -/
+example : (parseSpeaker (.dict [("names", .str "M+030")])).toOption.isNone = true := by decide +kernel
+example : (parsePolar (.dict [("az", .int 0), ("el", .int 0), ("r", .int 1), ("x", .int 1)])).toOption.isNone = true := by
+  decide +kernel
+example : (parsePolar (.dict [("az", .num (361 / 2)), ("el", .int 0), ("r", .int 1)])).toOption.isNone = true := by
+  decide +kernel
+example : (parseScreen (.dict [("type", .str "other")])).toOption.isNone = true := by decide +kernel
+example : (loadRealLayout exDflt (.int 3)).toOption.isNone = true := by decide +kernel
+example : (withSpeakers exChans [⟨.int (-3), [.str "M+030"], none, .num 1⟩, ⟨.int 1, [.str "M-030"], none, .num 1⟩]).toOption.isNone
+    = true := by decide +kernel
+example : (withSpeakers exChans []).toOption.isNone = true := by decide +kernel
+/-- ... and a negative channel that does wrap (`-1` is the last output channel), as numpy indexing has it. -/
+example : (withSpeakers exChans [⟨.int (-1), [.str "M+030"], none, .num 1⟩, ⟨.int 1, [.str "M-030"], none, .num 1⟩]).toOption.map (·.2)
+    = some [[0, 0], [1, 1]] := by decide +kernel
+
+/-- `check_upmix_matrix`: a permutation with gains is clean; a shared output and an unmapped channel are reported. -/
+example : checkUpmix ["a", "b"] [[0, 2], [1 / 2, 0]] = [] := by decide +kernel
+example : checkUpmix ["a", "b", "c"] [[1, 1, 0]] = [.notMapped "c", .rowMulti 0 ["a", "b"]] := by decide +kernel
+
+/-- `inside_angle_range`: `(180, 180)` contains `-180`; `(-180, 180)` is the whole circle; `(22.5, 30)` excludes 31. -/
+example : insideAngleRange (-180) 180 180 = true ∧ insideAngleRange 77 (-180) 180 = true ∧
+    insideAngleRange 31 (45 / 2) 30 = false := by decide +kernel
+
+/-- Lookups: found ignoring case, wrong type, unknown id. -/
+def exAdm : List Elem := [⟨some "APR_1001", .programme⟩, ⟨none, .other⟩, ⟨some "AO_1001", .object⟩]
+example : lookupAdmElement exAdm (some "apr_1001") .programme = .ok (some ⟨some "APR_1001", .programme⟩) := by decide +kernel
+example : lookupAdmElement exAdm (some "AO_1001") .programme = .error (.valueError "AO_1001") := by decide +kernel
+example : lookupAdmElement exAdm (some "APR_1002") .programme = .error (.keyError "APR_1002") := by decide +kernel
+
+end Earverif.FileRenderLayout
